@@ -26,10 +26,15 @@ hier = {
 * every object carries the marker `marker(layer_name, obj)` in its LONG-NAME:
   "<layer>/<cat>/<name>", or "twin/<cat>/<name>" for objects flagged "twin" (identical content
   in every layer that defines them, only the ODX ID differs).
-* field / mux / diag-variable objects reference a helper structure / DOP / variable group that
-  must be defined in the same layer; `add_helpers(hier)` inserts them as ordinary objects named
-  HELPER_STRUCT / HELPER_DOP / HELPER_VG + layer name (so they take part in inheritance
-  like everything else and are never the subject of a name clash).
+* field / mux objects reference (by ID) a helper structure / DOP that must be defined in the
+  same layer; `add_helpers(hier)` inserts them as ordinary objects named HELPER_STRUCT /
+  HELPER_DOP + layer name (so they take part in inheritance like everything else and are
+  never the subject of a name clash).  DIAG-VARIABLEs are emitted without VARIABLE-GROUP-REF.
+* DEFAULT_CATS = CATS minus UNLOADABLE_CATS ("variable_group": the tree under test raises
+  TypeError in VariableGroup.from_et for any VARIABLE-GROUP element; C09 probes this and only
+  then uses the category).
+* names of the DOP-BASE categories (dop, dtc_dop, structure, the fields, mux, env_data,
+  env_data_desc) must be disjoint within a layer: they share the ID scheme <layer>.DOP.<name>.
 * a service "a" defined in the layer with "index" i (default: position in hier["layers"]) has the request
   `request_bytes(hier, layer_name, obj)`: 3 constant bytes unique per (layer, name).
 
